@@ -611,7 +611,12 @@ def _any_input_locked(node) -> bool:
     except Exception:  # noqa: BLE001
         pass
     kids = getattr(node, "children", None)
-    return bool(kids) and any(_any_input_locked(c) for c in kids.values())
+    if not kids:
+        return False
+    for key in list(kids.keys()):
+        if _any_input_locked(kids[key]):
+            return True
+    return False
 
 
 def _is_lock_refusal(exc, graph) -> bool:
